@@ -1,5 +1,6 @@
 import Driver.Util
 import Verif.Model.StateCacheConc
+import Verif.Gen.StateCacheFacts
 /-! Model driver for the state-cache suites c06 / c07 / c08 (`modeld sc`).
 Op language: see /verif/go/harness/sccommon.go and suite_c08.go. Handles, keys, block hashes and values are strings;
 "-" is the empty block hash. -/
@@ -8,8 +9,10 @@ open Verif.SC Driver
 
 abbrev S := Sys String String String String
 
-def capPerKey : Nat := 200     -- lru.New(200) in StateCache.commit
-def maxHisDepth : Nat := 2000  -- NewStateCache
+/-- regenerated from core/statecache/statecache.go on every run: lru.New(200) in StateCache.commit -/
+def capPerKey : Nat := Verif.Gen.StateCacheFacts.capPerKey
+/-- regenerated: maxHisDepth := 2000 in NewStateCache (also the capacity of hashCache) -/
+def maxHisDepth : Nat := Verif.Gen.StateCacheFacts.maxHisDepth
 
 def initSys : S := Sys.new capPerKey maxHisDepth
 
